@@ -569,6 +569,27 @@ def _diff_in_tau(spec, detail):
     return False
 
 
+def _fallback_scaled(spec):
+    """input class of C18-bpch2-fallback-scale: a block whose offset +
+    tracer number has no tracerinfo row while the bare-numbered row exists
+    with a scale != 1"""
+    for c in spec['cats']:
+        for tr in c['tracers']:
+            if table_row(spec, tr['id'] + c['offset']) is None:
+                bare = table_row(spec, tr['id'])
+                if bare is not None and bare['scale'] != 1.0:
+                    return True
+    return False
+
+
+known.register(
+    'C18-bpch2-fallback-scale',
+    lambda spec, f: _fallback_scaled(spec) and f.klass == 'scale=1' and
+    f.clause.endswith('-values') and
+    f.clause.split('-')[0] in ('bpch2', 'front', 'master') and
+    '-scaled' in f.clause and 'raw x 1.0' in f.detail)
+
+
 # ------------------------------------------------------------------ oracle
 def check_tracer_vars(r, f, exp, clause, scaled, who, bits_mode):
     """names / shapes / values / identifying attributes of the tracer
